@@ -17,6 +17,7 @@
 -/
 import ALV.Model.C02
 import ALV.Model.C02Stop
+import ALV.Model.C02Two
 namespace ALV.C02
 
 def ceilDiv (k hop : Nat) : Nat := (k + hop - 1) / hop
@@ -125,5 +126,21 @@ def XDesc.Valid : XDesc → Prop
 
 instance : DecidablePred XDesc.Valid := fun d => by
   cases d <;> unfold XDesc.Valid <;> infer_instance
+
+/-! ### two counted sources, one of which ends (after request `k ≥ 1`) -/
+
+/-- lock-step `map` / `zip` over sources of `na` and `nb` items: the first source is read at EVERY
+    request while it lasts (`min k na` — one more than the partner when the partner ends first, and
+    again at every request past the end), the second only when the first delivered -/
+def needMapzip (na nb k : Nat) : Bool × Nat × Nat :=
+  (decide (k ≤ na ∧ k ≤ nb), min k na, min k (min na nb))
+
+/-- `chain(a, b)` / `append`: the tail is not touched while the head lasts, then one item per output -/
+def needChain2 (na nb k : Nat) : Bool × Nat × Nat :=
+  (decide (k ≤ na + nb), min k na, min (k - na) nb)
+
+/-- `izip_longest(a, b)`: each source once per output while it lasts -/
+def needLongest (na nb k : Nat) : Bool × Nat × Nat :=
+  (decide (k ≤ max na nb), min k na, min k nb)
 
 end ALV.C02
